@@ -156,7 +156,22 @@ def identify_missing_sections(existing_config: dict, all_sections: list[str]) ->
     """
     # Section names may be spelled with hyphens or underscores (both are accepted by the loaders)
     existing = {str(key).replace("-", "_") for key in existing_config}
-    return [s for s in all_sections if s.replace("-", "_") not in existing]
+    return [s for s in all_sections if not _is_configured(s, existing)]
+
+
+# Other names under which a linter reads its settings: adding the template section next to one
+# of these would take precedence over (or hide) what the user wrote
+_EQUIVALENT_SECTIONS = {
+    "print-statements": ("improper_logging",),
+    "pipeline": ("collection_pipeline",),
+    "file-placement": ("global_deny", "global_allow", "global_patterns", "directories"),
+}
+
+
+def _is_configured(section: str, existing: set[str]) -> bool:
+    """Check if a template section is already configured, under its own or an equivalent name."""
+    names = (section.replace("-", "_"), *_EQUIVALENT_SECTIONS.get(section, ()))
+    return any(name in existing for name in names)
 
 
 def _find_global_settings_position(content: str) -> int:
